@@ -827,6 +827,16 @@ def _n62(fn, is_method: bool, counter):
        is the recursion   BODY[cur:=P] with `for c in XS: f(.., c)` in place of the pushes (depth first, same order)"""
     body = [s_ for s_ in fn.body if not (isinstance(s_, ast.Expr) and isinstance(s_.value, ast.Constant))]
     docs = [s_ for s_ in fn.body if isinstance(s_, ast.Expr) and isinstance(s_.value, ast.Constant)]
+    # variant with an accumulator: `acc = list(); todo = [P]; while todo: ..; return acc` - the accumulator becomes a parameter
+    # that defaults to None (made fresh by the outermost call) and is handed down the recursion
+    acc = acc_init = None
+    if len(body) == 4 and isinstance(body[0], ast.Assign) and len(body[0].targets) == 1 and isinstance(body[0].targets[0], ast.Name) \
+            and isinstance(body[3], ast.Return) and isinstance(body[3].value, ast.Name) and body[3].value.id == body[0].targets[0].id:
+        v0 = body[0].value
+        if (isinstance(v0, (ast.List, ast.Dict)) and not getattr(v0, 'elts', getattr(v0, 'keys', None))) or (
+                isinstance(v0, ast.Call) and isinstance(v0.func, ast.Name) and v0.func.id in ('list', 'dict', 'set', 'OrderedDict') and not v0.args):
+            acc, acc_init = body[0].targets[0].id, body[0]
+            body = body[1:3]
     if len(body) not in (2, 3):
         return
     if len(body) == 3 and not (isinstance(body[2], ast.Return) and (body[2].value is None or (isinstance(body[2].value, ast.Constant)
@@ -834,6 +844,8 @@ def _n62(fn, is_method: bool, counter):
         return
     init, loop = body[0], body[1]
     params = [a.arg for a in fn.args.args]
+    if acc is not None and (acc in params or fn.args.defaults):
+        return
     if not (isinstance(init, ast.Assign) and len(init.targets) == 1 and isinstance(init.targets[0], ast.Name)
             and isinstance(init.value, ast.List) and len(init.value.elts) == 1 and isinstance(init.value.elts[0], ast.Name)
             and init.value.elts[0].id in params):
@@ -842,11 +854,19 @@ def _n62(fn, is_method: bool, counter):
     if not (isinstance(loop, ast.While) and not loop.orelse and isinstance(loop.test, ast.Name) and loop.test.id == todo and loop.body):
         return
     first = loop.body[0]
-    if not (isinstance(first, ast.Assign) and len(first.targets) == 1 and isinstance(first.targets[0], ast.Name)
+    if not (isinstance(first, ast.Assign) and len(first.targets) == 1 and isinstance(first.targets[0], (ast.Name, ast.Tuple))
             and isinstance(first.value, ast.Call) and isinstance(first.value.func, ast.Attribute) and first.value.func.attr == 'pop'
             and isinstance(first.value.func.value, ast.Name) and first.value.func.value.id == todo and not first.value.args):
         return
-    cur = first.targets[0].id
+    unpack = None
+    if isinstance(first.targets[0], ast.Tuple):
+        # `a, b = todo.pop()`: the popped element is unpacked at once - in the recursion that is `a, b = P`
+        if not all(isinstance(t, ast.Name) for t in first.targets[0].elts):
+            return
+        unpack = first.targets[0]
+        cur = '__popped__'
+    else:
+        cur = first.targets[0].id
     rest = loop.body[1:]
     if fn.args.vararg or fn.args.kwarg or fn.args.kwonlyargs:
         return
@@ -855,7 +875,7 @@ def _n62(fn, is_method: bool, counter):
     # P and cur must not be used otherwise
     if any(isinstance(n, ast.Name) and n.id == P for s_ in rest for n in ast.walk(s_)):
         return
-    if sum(1 for n in ast.walk(fn) if isinstance(n, ast.Name) and n.id == cur and not isinstance(n.ctx, ast.Load)) != 1:
+    if unpack is None and sum(1 for n in ast.walk(fn) if isinstance(n, ast.Name) and n.id == cur and not isinstance(n.ctx, ast.Load)) != 1:
         return
     ok = [True]
     uses = [n for s_ in rest for n in ast.walk(s_) if isinstance(n, ast.Name) and n.id == todo]
@@ -863,6 +883,8 @@ def _n62(fn, is_method: bool, counter):
 
     def recursive_call(arg: ast.AST) -> ast.stmt:
         args = [ast.Name(p_, ast.Load()) if p_ != P else arg for p_ in params]
+        if acc is not None:
+            args.append(ast.Name(acc, ast.Load()))
         if is_method:
             func = ast.Attribute(args[0], fn.name, ast.Load())
             args = args[1:]
@@ -901,7 +923,17 @@ def _n62(fn, is_method: bool, counter):
         for n in ast.walk(s_):
             if isinstance(n, ast.Name) and n.id == cur:
                 n.id = P
-    fn.body = docs + rest
+    head = []
+    if unpack is not None:
+        head.append(ast.copy_location(ast.Assign([unpack], ast.Name(P, ast.Load())), first))
+    if acc is not None:
+        fn.args.args.append(ast.arg(acc, None))
+        fn.args.defaults.append(ast.Constant(None))
+        fresh = ast.If(ast.Compare(ast.Name(acc, ast.Load()), [ast.Is()], [ast.Constant(None)]), [acc_init], [])
+        ast.copy_location(fresh, acc_init)
+        head.insert(0, fresh)
+        rest = rest + [ast.copy_location(ast.Return(ast.Name(acc, ast.Load())), loop)]
+    fn.body = docs + head + rest
     ast.fix_missing_locations(fn)
 
 
@@ -1275,6 +1307,24 @@ def _n72(fn):
                                   ast.Compare, ast.Is, ast.IsNot, ast.Eq, ast.NotEq)):
                 return False
         return True
+    # `f(.., **{'a': X, 'b': Y})` / `f(.., **dict(a=X, b=Y))` written in place (e.g. what an inlined options helper returned)
+    for c in ast.walk(fn):
+        if isinstance(c, ast.Call):
+            for k in list(c.keywords):
+                if k.arg is not None:
+                    continue
+                val = k.value
+                pairs = None
+                if isinstance(val, ast.Dict) and val.keys and all(isinstance(x, ast.Constant) and isinstance(x.value, str) and x.value.isidentifier()
+                                                                  for x in val.keys):
+                    pairs = [(x.value, y) for x, y in zip(val.keys, val.values)]
+                elif isinstance(val, ast.Call) and isinstance(val.func, ast.Name) and val.func.id == 'dict' and not val.args and val.keywords \
+                        and all(x.arg for x in val.keywords):
+                    pairs = [(x.arg, x.value) for x in val.keywords]
+                if pairs and not ({k2.arg for k2 in c.keywords if k2.arg} & {a for a, _ in pairs}):
+                    i = c.keywords.index(k)
+                    c.keywords[i:i + 1] = [ast.keyword(a, x) for a, x in pairs]
+                    ast.fix_missing_locations(c)
     stores_all = {}
     for n in ast.walk(fn):
         if isinstance(n, ast.Name) and not isinstance(n.ctx, ast.Load):
@@ -1359,8 +1409,130 @@ def _n73(fn):
     return False
 
 
+def _n75(tree):
+    """N75 a comparison between two literals is its value (`'yaml' == 'json'`, left behind when a helper that switches on a
+    literal argument is inlined); the if statement / conditional expression it decides is reduced to the arm that is taken"""
+    class T(ast.NodeTransformer):
+        def visit_Compare(self, n):
+            self.generic_visit(n)
+            if len(n.ops) == 1 and isinstance(n.left, ast.Constant) and isinstance(n.comparators[0], ast.Constant) \
+                    and isinstance(n.ops[0], (ast.Eq, ast.NotEq)) and type(n.left.value) is type(n.comparators[0].value) \
+                    and isinstance(n.left.value, (str, int, bool, type(None))):
+                eq = n.left.value == n.comparators[0].value
+                return ast.copy_location(ast.Constant(eq if isinstance(n.ops[0], ast.Eq) else not eq), n)
+            if len(n.ops) == 1 and isinstance(n.left, ast.Constant) and isinstance(n.ops[0], (ast.In, ast.NotIn)) \
+                    and isinstance(n.comparators[0], (ast.Tuple, ast.List, ast.Set)) and all(isinstance(x, ast.Constant) for x in n.comparators[0].elts) \
+                    and isinstance(n.left.value, str):
+                mem = n.left.value in [x.value for x in n.comparators[0].elts]
+                return ast.copy_location(ast.Constant(mem if isinstance(n.ops[0], ast.In) else not mem), n)
+            return n
+
+        def visit_If(self, n):
+            self.generic_visit(n)
+            if isinstance(n.test, ast.Constant) and isinstance(n.test.value, bool):
+                taken = n.body if n.test.value else n.orelse
+                return taken if taken else ast.copy_location(ast.Pass(), n)
+            return n
+
+        def visit_IfExp(self, n):
+            self.generic_visit(n)
+            if isinstance(n.test, ast.Constant) and isinstance(n.test.value, bool):
+                return n.body if n.test.value else n.orelse
+            return n
+    return T().visit(tree)
+
+
+def _n76(fn):
+    """N76 `class C(B): pass` followed at once by `C.attr = <literal>` statements: the attributes belong to the class body"""
+    for holder, fld, blk in list(_blocks(fn)):
+        i = 0
+        while i < len(blk):
+            st = blk[i]
+            if isinstance(st, ast.ClassDef) and not st.decorator_list:
+                j = i + 1
+                while j < len(blk) and isinstance(blk[j], ast.Assign) and len(blk[j].targets) == 1 and isinstance(blk[j].targets[0], ast.Attribute) \
+                        and isinstance(blk[j].targets[0].value, ast.Name) and blk[j].targets[0].value.id == st.name \
+                        and isinstance(blk[j].value, ast.Constant) and not blk[j].targets[0].attr.startswith('__'):
+                    a = blk[j]
+                    new = ast.copy_location(ast.Assign([ast.Name(a.targets[0].attr, ast.Store())], a.value), a)
+                    ast.fix_missing_locations(new)
+                    st.body = [x for x in st.body if not isinstance(x, ast.Pass)] + [new]
+                    del blk[j]
+            i += 1
+
+
+def _n77(tree):
+    """N77 `vars(X)` with one argument is `X.__dict__`"""
+    class T(ast.NodeTransformer):
+        def visit_Call(self, n):
+            self.generic_visit(n)
+            if isinstance(n.func, ast.Name) and n.func.id == 'vars' and len(n.args) == 1 and not n.keywords:
+                return ast.copy_location(ast.Attribute(n.args[0], '__dict__', ast.Load()), n)
+            return n
+    return T().visit(tree)
+
+
+def _n78(fn):
+    """N78 `try: A except ..: H else: B` with B a single return / plain assignment of a value that contains no call (it cannot raise
+    what the handlers take) -> B is the end of the protected statements; N79 a wrapper `w = Node(x)` / `UnknownNode(s, x)` made right
+    before a `try` whose first statement is its only reader is made there (these constructors only store their arguments)"""
+    def callfree(e):
+        return e is None or not any(isinstance(x, (ast.Call, ast.Subscript, ast.BinOp, ast.Await, ast.Yield, ast.YieldFrom)) for x in ast.walk(e))
+    for holder, fld, blk in list(_blocks(fn)):
+        for st in blk:
+            if isinstance(st, ast.Try) and st.orelse and len(st.orelse) == 1 and not st.finalbody:
+                b = st.orelse[0]
+                if (isinstance(b, ast.Return) and callfree(b.value)) or (isinstance(b, ast.Assign) and callfree(b.value)
+                                                                         and all(isinstance(t, ast.Name) for t in b.targets)):
+                    st.body = st.body + [b]
+                    st.orelse = []
+        i = 0
+        while i + 1 < len(blk):
+            a, t = blk[i], blk[i + 1]
+            if isinstance(a, ast.Assign) and len(a.targets) == 1 and isinstance(a.targets[0], ast.Name) and isinstance(a.value, ast.Call) \
+                    and isinstance(a.value.func, ast.Name) and a.value.func.id in ('Node', 'UnknownNode') and isinstance(t, ast.Try) and t.body:
+                v = a.targets[0].id
+                loads = [n for n in ast.walk(fn) if isinstance(n, ast.Name) and n.id == v and isinstance(n.ctx, ast.Load)]
+                stores = [n for n in ast.walk(fn) if isinstance(n, ast.Name) and n.id == v and not isinstance(n.ctx, ast.Load)]
+                first = t.body[0]
+                if len(loads) == 1 and len(stores) == 1 and any(loads[0] is n for n in ast.walk(first)) \
+                        and isinstance(first, (ast.Expr, ast.Assign, ast.Return)):
+                    _Subst(lambda y, ld=loads[0]: y is ld, lambda y, val=a.value: val).visit(first)
+                    del blk[i]
+                    continue
+            i += 1
+
+
+def _n81(fn):
+    """N81 unpacking of an indexed pair: `a, b = CHAIN[i]` (CHAIN a name / attribute chain, i a name or constant; targets plain names,
+    `_` ignored) -> `a = CHAIN[i][0]; b = CHAIN[i][1]`"""
+    for holder, fld, blk in list(_blocks(fn)):
+        i = 0
+        while i < len(blk):
+            st = blk[i]
+            if isinstance(st, ast.Assign) and len(st.targets) == 1 and isinstance(st.targets[0], ast.Tuple) and len(st.targets[0].elts) == 2 \
+                    and all(isinstance(t, ast.Name) for t in st.targets[0].elts) and isinstance(st.value, ast.Subscript) \
+                    and _is_chain(st.value.value) and isinstance(st.value.slice, (ast.Name, ast.Constant)):
+                names = [t.id for t in st.targets[0].elts]
+                if not any(isinstance(n, ast.Name) and n.id in names for n in ast.walk(st.value)):
+                    new = []
+                    for k, nm in enumerate(names):
+                        if nm == '_':
+                            continue
+                        a = ast.Assign([ast.Name(nm, ast.Store())], ast.Subscript(copy.deepcopy(st.value), ast.Constant(k), ast.Load()))
+                        ast.copy_location(a, st)
+                        ast.fix_missing_locations(a)
+                        new.append(a)
+                    blk[i:i + 1] = new or [ast.copy_location(ast.Pass(), st)]
+                    i += len(new) or 1
+                    continue
+            i += 1
+
+
 def pre_normalize(tree: ast.Module) -> ast.Module:
     tree = _n71(tree)
+    tree = _n77(tree)
+    tree = _n75(tree)
     tree = _n39(tree)
     tree = _n47(tree)
     tree = _n65(tree)
@@ -1368,7 +1540,7 @@ def pre_normalize(tree: ast.Module) -> ast.Module:
     _n42(tree)
     counter = [0]
     for holder in ast.walk(tree):
-        if isinstance(holder, (ast.Module, ast.ClassDef)):
+        if isinstance(holder, (ast.Module, ast.ClassDef, ast.FunctionDef)):
             for fn in [n for n in holder.body if isinstance(n, ast.FunctionDef)]:
                 _n62(fn, isinstance(holder, ast.ClassDef) and not any(isinstance(d, ast.Name) and d.id == 'staticmethod' for d in fn.decorator_list),
                      counter)
@@ -1377,6 +1549,9 @@ def pre_normalize(tree: ast.Module) -> ast.Module:
         _n70(fn, counter)
         _n72(fn)
         _n73(fn)
+        _n76(fn)
+        _n78(fn)
+        _n81(fn)
         _n64(fn)
         _n63(fn)
         _n67(fn)
